@@ -376,7 +376,7 @@ class _Norm(ast.NodeTransformer):
         return n
 
     def _block(self, stmts):
-        stmts = self._split_tuples(stmts)
+        stmts = self._list_extends(self._split_tuples(stmts))
         out = []
         i = 0
         while i < len(stmts):
@@ -407,6 +407,24 @@ class _Norm(ast.NodeTransformer):
             out.append(st)
             i += 1
         return out or [ast.Pass()]
+
+    def _list_extends(self, stmts):
+        """N15: x += [a, b] / x.extend([a, b])  ->  x.append(a); x.append(b)   (x a plain name)"""
+        out = []
+        for st in stmts:
+            tgt = elts = None
+            if isinstance(st, ast.AugAssign) and isinstance(st.op, ast.Add) and isinstance(st.target, ast.Name) and isinstance(st.value, ast.List):
+                tgt, elts = st.target.id, st.value.elts
+            elif isinstance(st, ast.Expr) and isinstance(st.value, ast.Call) and isinstance(st.value.func, ast.Attribute) and st.value.func.attr == 'extend' and \
+                    isinstance(st.value.func.value, ast.Name) and len(st.value.args) == 1 and isinstance(st.value.args[0], ast.List):
+                tgt, elts = st.value.func.value.id, st.value.args[0].elts
+            if tgt is not None and elts and not any(isinstance(e, ast.Starred) for e in elts):
+                for e in elts:
+                    out.append(ast.copy_location(ast.Expr(value=ast.Call(func=ast.Attribute(value=ast.Name(id=tgt, ctx=ast.Load()), attr='append', ctx=ast.Load()),
+                                                                       args=[e], keywords=[])), st))
+                continue
+            out.append(st)
+        return out
 
     def _split_tuples(self, stmts):
         """N12: a, b = x, y  ->  a = x; b = y   when no target is read by a later element (plain names only)"""
